@@ -368,7 +368,7 @@ func one(ctx context.Context, w *run.Worker, c *run.Case) {
 					fmDone <- fmRes{m, err}
 				}()
 				for k := 0; k < 50; k++ {
-					run.Settle(20 * time.Second)
+					run.Settle(90 * time.Second)
 					if s.Gate.Waiting("klm.get") > 0 || len(fmDone) > 0 {
 						break
 					}
@@ -409,7 +409,7 @@ func one(ctx context.Context, w *run.Worker, c *run.Case) {
 				rotDone <- ok
 			}()
 			for k := 0; k < 50; k++ {
-				run.Settle(20 * time.Second)
+				run.Settle(90 * time.Second)
 				if s.Gate.Waiting("alloc.newblock") > 0 || len(rotDone) > 0 {
 					break
 				}
